@@ -250,6 +250,20 @@ def run(ctx):
                             ctx.uncovered("Multisphere at size class xlarge: %s" % type(e).__name__)
                         else:
                             raise
+            # (a) only distances matter: detector points and sphere raised together by two medium wavelengths
+            # (the incident phase is referred to z = 0, so whole wavelengths leave the field as it is);
+            # (b) the field of a sphere for polarisation at angle psi is the x-polarised field turned by psi
+            lam = WL / NMED
+            dP2 = detector_points(x=px, y=py, z=2 * lam)
+            F2 = calc_field(dP2, Sphere(n=n, r=r, center=(0.0, 0.0, zc + 2 * lam)), illum_polarization=polv,
+                            theory=Mie(rad, full), **opts).values
+            ca_, sa_ = math.cos(psi), math.sin(psi)
+            dP3 = detector_points(x=ca_ * px + sa_ * py, y=-sa_ * px + ca_ * py, z=0.0)      # the points turned by -psi
+            F3 = calc_field(dP3, sphz, illum_polarization=(1, 0), theory=Mie(rad, full), **opts).values
+            F3 = np.asarray(F3)
+            F3r = np.stack([ca_ * F3[:, 0] - sa_ * F3[:, 1], sa_ * F3[:, 0] + ca_ * F3[:, 1], F3[:, 2]], axis=1)
+            evs.append({"event": "Relation", "rel": "field_moves_with_detector", "mb": quant.mb(rel(F, F2, fs)), "xcls": c["x"]})
+            evs.append({"event": "Relation", "rel": "field_turns_with_polarisation", "mb": quant.mb(rel(F, F3r, fs)), "xcls": c["x"]})
             if "field_mie_vs_textbook_farfield" in rels:
                 Ft = calc_field(dP, sphz, illum_polarization=polv, theory=tb, **opts).values
                 evs.append({"event": "Relation", "rel": "field_mie_vs_textbook_farfield",
